@@ -176,14 +176,15 @@ def replay_funcfl(nr, nrho, w):
   return (bool(bad), "; ".join(bad[:3]) or "funcfl agrees", dict(kind="funcfl", nr=nr, nrho=nrho, dr=dr, drho=drho, mismatches=bad[:10]))
 
 
-def excel_case(kind, elements, nr, nrho, declared=None):
+def excel_case(kind, elements, nr, nrho, declared=None, shared=None):
   """kind: pair | eam | eam_fs.  First column r (rho on EAM-Embed), labelled
   columns hold the labelled function at that row."""
   fs = kind == "eam_fs"
   pairs = {k: (k[1], k[0]) if (i % 2 and k[0] != k[1]) else (k[0], k[1]) for i, k in enumerate(EC.all_pair_keys(elements))}
   if declared is not None:
     pairs = {k: (v if k in declared else None) for k, v in pairs.items()}
-  model = EC.Model(elements, pairs, fs=fs)
+  # shared: groups of function names served by one python object (e.g. an embedding function that is also a density)
+  model = EC.Model(elements, pairs, fs=fs, shared=shared)
   res = new_result("excel %s %s nr=%d nrho=%d" % (kind, model.describe(), nr, nrho))
   from atsim.potentials.pair_tabulation import Excel_PairTabulation
   from atsim.potentials.eam_tabulation import Excel_EAMTabulation, Excel_FinnisSinclair_EAMTabulation
@@ -259,7 +260,7 @@ def excel_case(kind, elements, nr, nrho, declared=None):
         x = rv(k) * step
         vcs.append(VC("%s/x%d" % (name, k), eq_formula(T(path, sh["x"][k]), x), info=dict(key="grid")))
         for label, fname in cols.items():
-          f = z3.Function(fname, core.R, core.R)
+          f = z3.Function(model.alias.get(fname, fname), core.R, core.R)
           vcs.append(VC("%s/%s/%d" % (name, label, k), eq_formula(T(path, sh["columns"][label][k]), f(x)), info=dict(key="column")))
     return vcs
 
@@ -304,6 +305,7 @@ def replay_excel(kind, model, nr, nrho, w):
         if abs(sh["x"][k] - x) > 1e-12 * max(1.0, abs(x)):
           bad.append("sheet %s row %d first column %r expected %r" % (name, k, sh["x"][k], x))
         for label, fname in cols.items():
+          fname = model.alias.get(fname, fname)
           if abs(sh["columns"][label][k] - funcs[fname](x)) > 1e-12 * max(1.0, abs(funcs[fname](x))):
             bad.append("sheet %s %s row %d = %r expected %r" % (name, label, k, sh["columns"][label][k], funcs[fname](x)))
     # the files actually written (twice from the same object)
@@ -396,6 +398,10 @@ def cases(tier, seed=0):
     if nr == nrho and kind != "pair":
       nrho += 1
     cs.append(Case("excel %s %s nr=%d nrho=%d" % (kind, "/".join(order), nr, nrho), excel_case, kind=kind, elements=order, nr=nr, nrho=nrho, declared=decl))
+  # one python object serving as embedding function and as density / pair function (grids of different size)
+  for kind, order, sh in (("eam", ("Cu", "Al"), [("F_Cu", "rho_Cu")]), ("eam", ("Al",), [("F_Al", "rho_Al", "phi_Al_Al")]),
+                          ("eam_fs", ("Cu", "Al"), [("F_Al", "rho_Al_Cu")]), ("eam_fs", ("Zr", "Cu"), [("F_Zr", "rho_Cu_Zr", "phi_Cu_Zr")])):
+    cs.append(Case("excel %s %s one object for %s" % (kind, "/".join(order), "=".join(sh[0])), excel_case, kind=kind, elements=order, nr=4, nrho=3, shared=sh))
   cs.extend(adp_cases(tier))
   for (m, tgt, nr, nrho) in pm:
     cs.append(Case("potable %s %s nr=%d" % (m, tgt, nr), EP.potable_case, model_name=m, target=tgt, nr=nr, nrho=nrho))
